@@ -304,6 +304,24 @@ def matrix_exprs(rng, quick):
                 rows[i][perm[i]] = rng.choice([1, 1, -1, 2])
         m = "[" + ";".join(",".join(str(x) for x in r) for r in rows) + "]"
         out += ["determinant(%s)" % m, "inverse(%s)" % m, "%s * inverse(%s)" % (m, m)]
+    # sizes beyond 4 in every tier (an implementation may switch algorithm with the size): every transposition and the
+    # cyclic shift of identity(n), n = 5..7, and dense matrices whose leading pivots are zero
+    for n in (5, 6, 7):
+        perms = []
+        for a in range(n):
+            for b in range(a + 1, n):
+                q = list(range(n)); q[a], q[b] = q[b], q[a]; perms.append(q)
+        perms = (perms if n == 5 else perms[:6]) + [[(i + 1) % n for i in range(n)], list(range(n))]
+        for q in perms:
+            m = "[" + ";".join(",".join("1" if q[i] == j else "0" for j in range(n)) for i in range(n)) + "]"
+            out += ["determinant(%s)" % m, "inverse(%s)" % m]
+        for _ in range(3):
+            rows = [[rng.randrange(-4, 5) for j in range(n)] for i in range(n)]
+            rows[0][0] = 0
+            rows[1][1] = 0 if rng.random() < 0.5 else rows[1][1]
+            rows[1][0] = rows[1][0] or 1
+            m = "[" + ";".join(",".join(str(x) for x in r) for r in rows) + "]"
+            out += ["determinant(%s)" % m, "inverse(%s)" % m, "%s * inverse(%s)" % (m, m)]
     for _ in range(20 if quick else 200):
         u = rand_matrix(rng, 1, 3, complex_=rng.random() < 0.3)
         v = rand_matrix(rng, 1, 3)
